@@ -30,7 +30,7 @@ pub struct Spec {
     pub want_c: bool,
 }
 
-pub const ASSUME_DOMAIN: &str = "inputs are drawn from the robust domains of DESIGN.md §3 (exact families: rectilinear bitmaps, octagonal lattice, their exact affine images; inexact families: perturbed shared triangulation, float stars in general position with margin 1e-6*magnitude, self-crossing rings in general position); the inexact-and-degenerate region where the recorded findings K1-K4/N2 live is excluded by construction";
+pub const ASSUME_DOMAIN: &str = "inputs are drawn from the robust domains of DESIGN.md §3 (exact families: rectilinear bitmaps, octagonal lattice, their exact affine images, and `flat-oct` = octagonal-lattice operand against an axis-parallel operand with x scaled by 2^kx, kx <= 30, i.e. long flat shapes whose edges cross at angles down to 1e-9; inexact families: perturbed shared triangulation, float stars in general position with margin 1e-6*magnitude, self-crossing rings in general position); the inexact-and-degenerate region where the recorded findings K1-K4/N2 live is excluded by construction";
 pub const ASSUME_ORACLE: &str = "oracle trusted base: robust::orient2d (exact orientation), the boundary tracer (cross-checked against the bitmap/triangle model on every generated operand), the witness construction (approximate placement, exact classification)";
 pub const ASSUME_TOL: &str = "tolerance model: 0 on exact families (bitwise comparisons), 1e-9*max|coordinate| for f64 and 1e-4*max|coordinate| for f32 on inexact families; witnesses closer than the tolerance to an input edge are skipped and counted";
 
@@ -54,6 +54,7 @@ pub fn pair_families(tier: Tier, total_quick: u64, total_thorough: u64, selfx: b
         fam("aff-oct", unit, want_c, move || strat::case(strat::oct_shape(ow, ow), true)),
         fam("pert", unit * 2, want_c, move || strat::case(strat::pert_shape(ow, ow), false)),
         fam("gen", unit * 3, want_c, || strat::case(strat::gen_shape(), false)),
+        fam("flat-oct", unit, want_c, move || strat::flat_case(ow, ow, 30)),
     ];
     if selfx {
         v.push(fam("selfx", unit, false, || strat::case(strat::selfx_shape(), false)));
